@@ -23,7 +23,7 @@ RULE = ('random import graphs (generator of C17: cycles, diamonds, sub-directori
         'the failing file is an import (direct or transitive)')
 REQUIRED = {'failed_attempts': 300, 'phase_syntax': 30, 'phase_unresolved': 30, 'phase_objproc': 30, 'phase_modelproc': 30,
             'fault_in_main': 30, 'fault_in_direct_import': 30, 'fault_in_transitive_import': 20, 'repaired_reloads': 100,
-            'global_repo_attempts': 100}
+            'global_repo_attempts': 100, 'string_main_with_globalrepo_provider_attempts': 50}
 PHASES = ['syntax', 'unresolved', 'objproc', 'modelproc']
 
 
@@ -34,10 +34,78 @@ def repo_census(mm):
     return {fn: id(m) for fn, m in rep.all_models.filename_to_model.items()}
 
 
+def globalrepo_string_main(ctx, i, rep):
+    """GlobalRepo-type provider (file pattern) + metamodel-wide repository + the main model given as a STRING: the
+    string model is registered in the shared repository under an invented name and must disappear again when the
+    load fails."""
+    from textx import metamodel_from_str, TextXError
+    import textx.scoping.providers as sp
+    r = ctx.rng('gs', i)
+    tmp = tempfile.mkdtemp(prefix='tvc18g_')
+    try:
+        libs = {'lib1.m': 'def l1 def l2\n', 'lib2.m': 'def k1 ref rk -> k1\n'}
+        for nm, t in libs.items():
+            with open(os.path.join(tmp, nm), 'w') as f:
+                f.write(t)
+
+        def objproc(o):
+            if o.name == 'boom':
+                raise TextXError('object processor failure')
+
+        def modelproc(model, metamodel):
+            if any(x.name == 'mboom' for x in getattr(model, 'defs', [])):
+                raise ValueError('model processor failure')
+        prov = r.choice(['plain', 'fqn'])
+        mm = metamodel_from_str(M.GRAMMAR, global_repository=True)
+        cls = sp.PlainNameGlobalRepo if prov == 'plain' else sp.FQNGlobalRepo
+        mm.register_scope_providers({'*.*': cls(os.path.join(tmp, 'lib*.m'))})
+        mm.register_obj_processors({'Def': objproc})
+        mm.register_model_processor(modelproc)
+        good = 'def a ref r1 -> l1 ref r2 -> a\n'
+        wit0 = {'library_files': libs, 'provider': prov + ' GlobalRepo', 'main_model': 'string'}
+        if r.random() < 0.5:
+            mm.model_from_file(os.path.join(tmp, 'lib2.m'))      # something cached by an earlier successful load
+        for phase in r.sample(PHASES, len(PHASES)):
+            fault = {'syntax': '\n}}} garbage\n', 'unresolved': 'ref zz -> nowhere\n', 'objproc': 'def boom\n',
+                     'modelproc': 'def mboom\n'}[phase]
+            before = repo_census(mm)
+            failed = None
+            try:
+                mm.model_from_str(good + fault)
+            except (TextXError, ValueError) as e:
+                failed = str(e)[:100]
+            wit = dict(wit0, text=good + fault, phase=phase, error=failed)
+            ctx.case(('globalrepo-string-main', prov, phase), True, wit if ctx.evaluations < 3 else None)
+            if failed is None:
+                ctx.violation(None, 'string main model with a %s fault loaded successfully' % phase, wit, rep)
+                return
+            ctx.count('failed_attempts')
+            ctx.count('string_main_with_globalrepo_provider_attempts')
+            after = repo_census(mm)
+            # models of the pattern loaded by the failed attempt may legitimately... no: nothing of a failed load stays
+            if after != before:
+                extra = sorted(os.path.basename(k) for k in after if k not in before)
+                lost = sorted(os.path.basename(k) for k in before if k not in after)
+                ctx.violation(None, 'after a failed load of a string main model (%s fault, %s GlobalRepo provider) the global repository '
+                              'changed: left behind %r, lost %r' % (phase, prov, extra, lost), wit, rep)
+                return
+            try:
+                m = mm.model_from_file(os.path.join(tmp, 'lib1.m')) if r.random() < 0.5 else mm.model_from_str(good)
+                del m
+            except (TextXError, ValueError) as e:
+                ctx.violation(None, 'after a failed string-main load (%s fault) a correct load fails: %s' % (phase, str(e)[:100]), wit, rep)
+                return
+            ctx.count('repaired_reloads')
+    finally:
+        shutil.rmtree(tmp, ignore_errors=True)
+
+
 def one(ctx, i, rep=None):
     from textx import metamodel_from_str, TextXError
     import textx.scoping.providers as sp
     rep = rep or {'i': i}
+    if i % 5 == 3:
+        return globalrepo_string_main(ctx, i, rep)
     r = ctx.rng('d', i)
     global_repo = (i % 3 != 2)
     prov = ['plain', 'fqn'][i % 2]
